@@ -221,9 +221,13 @@ def check_property(mod, world, tier="quick", seed=0):
         b["secs"] = round(b["secs"] + ob["secs"], 3)
 
     # a clause is a *property* obligation of this check iff its id names this property (ids like C06+C10/...)
-    for o in obligs:
+    own = {prop} | set(getattr(mod, "ALSO_PROPERTY", ()))
+
+    def retag(o):
         if o["tag"] in ("property", "helper"):
-            o["tag"] = "property" if prop in o["name"].split("/")[0].split("+") else "helper"
+            o["tag"] = "property" if own & set(o["name"].split("/")[0].split("+")) else "helper"
+    for o in obligs:
+        retag(o)
     kf = load_known_findings()
     uncovered = [o for o in obligs if o["tag"] == "cover"]
     obligs = [o for o in obligs if o["tag"] != "cover"]
@@ -236,7 +240,7 @@ def check_property(mod, world, tier="quick", seed=0):
     real = [o for o in obligs if o["tag"] != "canary"]
     canaries = [o for o in obligs if o["tag"] == "canary"]
     # canaries: each deliberately false clause must be refuted on at least one path
-    can_ids = sorted({o["name"] for o in canaries if prop in o["name"].split("/")[0].split("+")})
+    can_ids = sorted({o["name"] for o in canaries if own & set(o["name"].split("/")[0].split("+"))})
     # a canary is fine when some path could NOT discharge it (refuted, or no proof found because of quantifiers)
     can_ok = {c: any(o["status"] != "unsat" for o in canaries if o["name"] == c) for c in can_ids}
     for c, ok in can_ok.items():
@@ -260,8 +264,7 @@ def check_property(mod, world, tier="quick", seed=0):
         res2 = run_units(world, units2)
         ob2 = [o for _, obs, _, _ in res2 for o in obs]
         for o in ob2:
-            if o["tag"] in ("property", "helper"):
-                o["tag"] = "property" if prop in o["name"].split("/")[0].split("+") else "helper"
+            retag(o)
         bad2 = [o for o in ob2 if o["tag"] == "property" and o["status"] != "unsat"]
         if any(err for _, _, _, err in res2):
             bad2.append({"name": "inline-fallback-crashed", "unit": "", "status": "unknown", "tag": "property", "path": [], "model": None})
